@@ -434,7 +434,7 @@ func (env *Zlisp) ResolveCallable(funcobj Sexp) (Sexp, string, error) {
 
 func (env *Zlisp) PrepareCallExprArgs(function *SexpFunction, args []Sexp) error {
 	for i, expr := range args {
-		if function != nil && !function.user && function.HasLazyFormals() && function.IsLazyCallArg(i) {
+		if function != nil && !function.user && function.HasLazyFormals() && function.IsLazyCallArg(function.formalOfCallArg(args, i)) {
 			env.datastack.PushExpr(NewSourceLazyArg(env, expr))
 			continue
 		}
